@@ -208,8 +208,15 @@ def bounded_search(depth, seed, random_n):
                             return f"restored job {jid}: done={j.done}, queued {k} times"
                         if not j.done and not any(x is j for _, x in wq2.timeoutq):
                             return f"restored unfinished job {jid} lost its timeout"
-                    # order: pulling everything yields (priority, serial) order per channel
-                    continue_ok = True
+                    # order: draining a channel hands the jobs out by (priority, serial), as before the restore
+                    import heapq
+                    for ch, q in wq2.channel2q.items():
+                        h = list(q)
+                        popped = [heapq.heappop(h) for _ in range(len(h))]
+                        want = sorted(q, key=lambda x: (x.priority, x.serial))
+                        if [x.serial for x in popped] != [x.serial for x in want]:
+                            return (f"restored channel {ch!r} hands its jobs out in the order {[(x.jobid, x.serial) for x in popped]}, "
+                                    f"(priority, serial) order is {[(x.jobid, x.serial) for x in want]}")
                 if qh.apply(w, op) is False:
                     return None
                 msg = w.check_c16()
@@ -233,7 +240,19 @@ def bounded_search(depth, seed, random_n):
                     return {"n": n, "failure": {"history": [list(o) for o in hist], "restore_at": pos, "detail": msg}, "samples": samples}
             if n % 4001 < 3 and len(samples) < 3:
                 samples.append([list(o) for o in hist])
+    # targeted family: an id that was killed and added again keeps its old slot in id2job but gets a new serial
+    A = ("add", "a", 0)
+    for k in (0, 1):
+        for extra in ([], [A], [A, A], [("add", "a", 1)], [("pull", 1, ("a",)), ("run",)]):
+            for tail in ([], [A]):
+                hist = [A, A] + [("kill", k)] + extra + [("readd", k)] + tail
+                for pos in range(len(hist) - 1, len(hist) + 1):
+                    n += 1
+                    msg = check(hist + [("run",)], pos)
+                    if msg:
+                        return {"n": n, "failure": {"history": [list(o) for o in hist], "restore_at": pos, "detail": msg}, "samples": samples}
     rnd = random.Random(seed)
+    ops = ops + [("readd", 0), ("readd", 1)]
     for _ in range(random_n):
         hist = [rnd.choice(ops) for _ in range(rnd.randint(4, 8))]
         hist[0] = ("add", "a", 0)
@@ -248,7 +267,7 @@ def bounded_search(depth, seed, random_n):
 def bounded(chk):
     r = bounded_search(2 if chk.tier == "quick" else 3, chk.seed, 1500 if chk.tier == "quick" else 15000)
     chk.bounded_result("pickle_roundtrip_at_every_history_position", r["n"], r["n"], True,
-                       "save/restore (real pickle) at every position of all histories of <= 2 (quick) / 3 (thorough) operations plus seeded random ones of <= 8; job fields, queue membership, timeout membership, finish event, counter, C16 invariant afterwards",
+                       "save/restore (real pickle) at every position of all histories of <= 2 (quick) / 3 (thorough) operations plus seeded random ones of <= 8; job fields, queue membership, timeout membership, finish event, counter, hand-out order per channel, C16 invariant afterwards; plus the kill / re-add-same-id family",
                        [{"detail": r["failure"]["detail"], "witness": r["failure"], "class": "restore"}] if r["failure"] else [], r["samples"])
 
 
